@@ -60,6 +60,11 @@ thread_local! {
     static VALUES: std::cell::Cell<bool> = std::cell::Cell::new(false);
 }
 
+thread_local! {
+    /// the trace of the error the last run_with_budget ended with (C15: where the error is located)
+    static LAST_ERR_TRACE: std::cell::RefCell<J> = std::cell::RefCell::new(J::Null);
+}
+
 fn run_with_budget(p: &P, compiled: &CaoCompiledProgram, n: u64) -> (Vec<Event>, String, String) {
     verif::reset(true);
     if VALUES.with(|v| v.get()) {
@@ -70,6 +75,7 @@ fn run_with_budget(p: &P, compiled: &CaoCompiledProgram, n: u64) -> (Vec<Event>,
     let ev = verif::take_events();
     verif::reset(false);
     let obs = observation(&vm, compiled, &res);
+    LAST_ERR_TRACE.with(|t| *t.borrow_mut() = match &res { Ok(()) => J::Null, Err(e) => trace_json(&e.trace) });
     let out = match &res {
         Ok(()) => "Ok".to_string(),
         Err(e) if matches!(e.payload, ExecutionErrorPayload::Timeout) => "Timeout".to_string(),
@@ -632,6 +638,11 @@ fn stack_val(v: &verif::StackVal, ids: &mut std::collections::HashMap<usize, i64
 }
 
 fn instr_events(ev: &[Event], bc: &[u8], p: &P) -> Vec<J> {
+    instr_events_tf(ev, bc, p, &Default::default())
+}
+
+/// `tf`: instruction address -> "namespace/function" of the card the compiler's source trace gives for it
+fn instr_events_tf(ev: &[Event], bc: &[u8], p: &P, tf: &std::collections::HashMap<u32, String>) -> Vec<J> {
     use std::str::FromStr;
     let mut arities: std::collections::HashMap<u32, i64> = Default::default();
     for n in p.natives.iter().chain(typed_registry().iter()) {
@@ -652,7 +663,8 @@ fn instr_events(ev: &[Event], bc: &[u8], p: &P) -> Vec<J> {
         match e {
             Event::Instr { ip, depth, stack_h, call_h, frame_off, .. } => {
                 let (name, n, a) = decode_at(bc, *ip as usize, &arity_of);
-                res.push(json!({"e": "I", "ip": ip, "op": name, "n": n, "a": a, "h": stack_h, "c": call_h, "fo": frame_off, "d": depth}));
+                res.push(json!({"e": "I", "ip": ip, "op": name, "n": n, "a": a, "h": stack_h, "c": call_h, "fo": frame_off, "d": depth,
+                                "tf": tf.get(ip).cloned().unwrap_or_default()}));
             }
             Event::Stack(vals) => {
                 // belongs to the instruction record just written: the stack, the immediate value and the global id
@@ -693,6 +705,8 @@ pub fn instr_drive(args: &[String]) {
     let append = arg_num(args, "--append", 0) == 1;
     let max_events = arg_num(args, "--max-events", 4000) as usize;
     VALUES.with(|v| v.set(arg_num(args, "--values", 0) == 1));
+    // --vary-budget 1: every case gets its own small budget, so that runs end in Timeout at all kinds of instructions
+    let vary = arg_num(args, "--vary-budget", 0) == 1;
     let mut w = TraceWriter::open(out, append, 20_000);
     // with the `hosttry` profile the first cases are hand-written: a recursion that reaches the last call frames and, at the
     // bottom, a host function that re-enters the interpreter and handles the failure (call-stack overflow of the re-entry)
@@ -724,8 +738,9 @@ pub fn instr_drive(args: &[String]) {
         labels.dedup();
         w.begin(id, &pj);
         // a budget keeps the recorded run short; the run may end in Timeout, which the model admits after any instruction
-        match guarded(|| run_with_budget(&p, &compiled, max_events as u64)) {
-            Ok((ev, _, _)) => {
+        let budget = if vary { 5 + rng.below(max_events) as u64 } else { max_events as u64 };
+        match guarded(|| run_with_budget(&p, &compiled, budget)) {
+            Ok((ev, out, _)) => {
                 // instruction starts according to the harness's own front-to-back decoding
                 let mut starts: Vec<usize> = vec![];
                 let mut q = 0usize;
@@ -734,7 +749,21 @@ pub fn instr_drive(args: &[String]) {
                     q += decode_at(&compiled.bytecode, q, &|_| -1).1;
                 }
                 w.line(json!({"e": "Prog", "case": id, "profile": profile, "labels": labels, "starts": starts, "end": compiled.bytecode.len() - 1}));
-                for r in instr_events(&ev, &compiled.bytecode, &p) {
+                let tf: std::collections::HashMap<u32, String> = compiled.trace.iter().map(|(k, t)| {
+                    let v = &trace_json(std::slice::from_ref(t))[0];
+                    (*k, format!("{}/{}", v["ns"], v["f"]))
+                }).collect();
+                let mut recs = instr_events_tf(&ev, &compiled.bytecode, &p, &tf);
+                // the outermost RunEnd carries how the run ended and where the error says it happened
+                let et = LAST_ERR_TRACE.with(|t| t.borrow().clone());
+                if let Some(last) = recs.iter_mut().rev().find(|r| r["e"] == "RunEnd") {
+                    last["out"] = json!(out);
+                    last["etrace"] = match &et {
+                        J::Array(a) => J::Array(a.iter().map(|x| json!(format!("{}/{}", x["ns"], x["f"]))).collect()),
+                        _ => json!([]),
+                    };
+                }
+                for r in recs {
                     w.line(r);
                 }
                 w.end(json!({"e": "Note", "case": id}));
